@@ -725,7 +725,7 @@ def run(prop, tier, seed, outdir, replay, ctx):
     spec = __import__('props').PROPS[prop]
     viols, samples = [], []
     stats = dict(evaluations=0, distinct=set(), transfers=0, calls=0, structs_without_c_definition=set())
-    widths = [(8, 'f64')] if tier == 'quick' else [(8, 'f64'), (4, 'f32')]
+    widths = [(8, 'f64'), (4, 'f32')]  # both real widths in both tiers: an f32-only layout change must not wait for thorough
     inconclusive = []
     try:
         for real, tag in widths:
